@@ -1,5 +1,6 @@
 import RainModel.Lemmas.LoopInv
 import RainModel.Lemmas.Blocks
+import RainModel.Lemmas.LoopWInv
 /-!
 `CfgWF` for configurations whose block lists are computed from the piece layout by `calcBlocks` (M-BLK) —
 which is how the driver's `parseNew` builds them: a piece for which `calcBlocks` returns no block has no
@@ -91,5 +92,92 @@ theorem cfgWF_of_blocks (c : Cfg) (h : c.blocks = cfgBlocks c) : CfgWF c := by
       · cases hnone
   · rw [sections_of_ge c i (Nat.le_of_not_lt hlt)] at hsc
     cases hsc
+
+/-! ### the converse: a piece with a block has a non-padding section (`Cfg.blocksHaveData`) -/
+
+theorem paint_true (m : List Bool) (b : Block) (m' : List Bool) (h : paint m b = some m') :
+    (true ∈ m → true ∈ m') ∧ (0 < b.l → true ∈ m') := by
+  unfold paint at h
+  split at h
+  · cases h
+  · cases h
+    refine ⟨fun hm => by simp [hm], fun hl => ?_⟩
+    have : true ∈ List.replicate b.l true := by simp [List.mem_replicate]; omega
+    simp [this]
+
+theorem foldlM_paint_true (blocks : List Block) (m0 m : List Bool) (h : blocks.foldlM paint m0 = some m) :
+    (true ∈ m0 → true ∈ m) ∧ (∀ b ∈ blocks, 0 < b.l → true ∈ m) := by
+  induction blocks generalizing m0 with
+  | nil =>
+    have : m0 = m := by simpa using h
+    subst this
+    exact ⟨id, fun b hb => by cases hb⟩
+  | cons a l ih =>
+    rw [List.foldlM_cons] at h
+    cases hp : paint m0 a with
+    | none => rw [hp] at h; cases h
+    | some m1 =>
+      rw [hp] at h
+      have h1 := paint_true m0 a m1 hp
+      have h2 := ih m1 h
+      refine ⟨fun hm => h2.1 (h1.1 hm), fun b hb hl => ?_⟩
+      rcases List.mem_cons.1 hb with rfl | hb
+      · exact h2.1 (h1.2 hl)
+      · exact h2.2 b hb hl
+
+/-- A block ⇒ a data byte: if `calcBlocks` returns a block, some section is not padding. -/
+theorem calcBlocks_cons (secs : List Sec) (bl : List Block) (h : calcBlocks 16384 secs = some bl) (hne : bl ≠ []) :
+    ∃ s ∈ secs, s.pad = false := by
+  unfold calcBlocks at h
+  split at h
+  · cases h
+  · have ht := runWith_tiles 16384 (by decide) secs
+    have hr : runWith CB.nextBlock 16384 secs = bl := by simpa using h
+    rw [hr] at ht
+    unfold Tiles at ht
+    rw [Bool.and_eq_true] at ht
+    obtain ⟨hall, hm⟩ := ht
+    cases hbm : blkMask bl with
+    | none => rw [hbm] at hm; cases hm
+    | some m =>
+      rw [hbm] at hm
+      simp only [Bool.and_eq_true, decide_eq_true_eq, beq_iff_eq] at hm
+      obtain ⟨b, hb⟩ := List.exists_mem_of_ne_nil bl hne
+      have hbl : 0 < b.l := by
+        have := List.all_eq_true.1 hall b hb
+        simp only [Bool.and_eq_true, decide_eq_true_eq] at this
+        exact this.1
+      have htrue : true ∈ m := (foldlM_paint_true bl [] m hbm).2 b hb hbl
+      have htrue' : true ∈ secMask secs := by
+        rw [← hm.2]; unfold padTo; simp [htrue]
+      unfold secMask at htrue'
+      rw [List.mem_flatMap] at htrue'
+      obtain ⟨s, hs, hmem⟩ := htrue'
+      have := (List.mem_replicate.1 hmem).2
+      exact ⟨s, hs, by simpa using this.symm⟩
+
+/-- **`Cfg.blocksHaveData` of every configuration whose blocks are `cfgBlocks`.** -/
+theorem blocksHaveData_of_blocks (c : Cfg) (h : c.blocks = cfgBlocks c) : c.blocksHaveData = true := by
+  unfold Cfg.blocksHaveData
+  rw [List.all_eq_true]
+  intro i hi
+  have hlt : i < c.n := List.mem_range.1 hi
+  rw [Bool.or_eq_true]
+  by_cases he : (c.blocks.getD i []).isEmpty = true
+  · exact Or.inl he
+  · right
+    rw [h] at he
+    unfold cfgBlocks at he
+    rw [List.getD_eq_getElem?_getD, List.getElem?_map, List.getElem?_range hlt] at he
+    simp only [Option.map_some, Option.getD_some] at he
+    split at he
+    · next bl hbl =>
+      have hne : bl ≠ [] := by
+        intro hnil; subst hnil; simp at he
+      obtain ⟨s, hs, hp⟩ := calcBlocks_cons _ bl hbl hne
+      obtain ⟨sc, hsc, rfl⟩ := List.mem_map.1 hs
+      rw [List.any_eq_true]
+      exact ⟨sc, hsc, by simpa using hp⟩
+    · simp at he
 
 end Rain.Loop
